@@ -47,8 +47,10 @@ func ParseAndValidateServerName(serverName ServerName) (host string, port int, v
 	}
 
 	// try parsing as an IPv4 address
+	// (an IPv6 literal must be bracketed, so an IPv4-mapped IPv6 address such as
+	// ::ffff:1.2.3.4, for which To4() is also non-nil, does not qualify)
 	ip := net.ParseIP(host)
-	if ip != nil && ip.To4() != nil {
+	if ip != nil && ip.To4() != nil && !strings.Contains(host, ":") {
 		valid = true
 		return
 	}
